@@ -25,7 +25,7 @@ import apigen, apicmp
 PROP = 'C19'
 LEAN_FILES = ['PnVerif/Model/Safety.lean', 'PnVerif/Model/Header.lean', 'PnVerif/Spec/SpecDecode.lean', 'PnVerif/Lemmas/Window.lean',
               'PnVerif/Lemmas/Safety.lean', 'PnVerif/Lemmas/SafetyWf.lean', 'PnVerif/Lemmas/SafetyWork.lean', 'PnVerif/Props/C19.lean', 'Driver/C19.lean']
-DICT4 = [0, 1, 2, 0x7fffffff, 0x80000000, 0xffffffff, 0xfffffffe, 10, 11, 12, 6, 7, 13, 0x100, 0x101, 0x7ffffffc, 0x10000]
+DICT4 = [0, 1, 2, 3, 4, 5, 8, 9, 0x7fffffff, 0x80000000, 0xffffffff, 0xfffffffe, 10, 11, 12, 6, 7, 13, 0x100, 0x101, 0x7ffffffc, 0x10000]
 DICT8 = [0, 1, 0x7fffffff, 0x80000000, 0xffffffff, 0x7fffffffffffffff, 0x8000000000000000, 0xffffffffffffffff,
          0xfffffffffffffffe, 0x100000000, 10, 11, 12, 0x7ffffffffffffffc]
 SMALL = [0, 1, 2, 3, 4, 5, 6, 7, 8, 10, 11, 12, 13, 16, 31, 32, 33, 255, 256, 257, 300, 511, 512, 540, 4096]
@@ -170,10 +170,20 @@ def gen_cases(seeds, tier, rng):
                 full.append(dict(kind='w4', name='%s:w4@%d=%x' % (tag, off, v), data=d[:off] + v.to_bytes(4, 'big') + d[off + 4:]))
             for v in DICT8:
                 full.append(dict(kind='w8', name='%s:w8@%d=%x' % (tag, off, v), data=d[:off] + v.to_bytes(8, 'big') + d[off + 8:]))
-    if tier == 'quick':         # all truncation points of one format (the others every 3rd), a seeded third of the substitutions
+        # off-by-one neighbourhood (always part of the quick tier): every word replaced by its own value +-1, and by
+        # ndims-1 / ndims / ndims+1 of this file (the bound every dimension id is tested against)
+        w = 8 if s['fmt'] == 5 else 4
+        ndims = int.from_bytes(d[12:12 + w], 'big')
+        for off in range(0, hs, 4):         # (4-byte words: in CDF-5 the low half of a 64-bit field is one of them)
+            cur = int.from_bytes(d[off:off + 4], 'big')
+            vals = set([(cur + 1) % (1 << 32), (cur - 1) % (1 << 32)] + [x for x in (ndims - 1, ndims, ndims + 1) if x >= 0])
+            for v in sorted(vals - {cur}):
+                full.append(dict(kind='nb', name='%s:nb@%d=%x' % (tag, off, v), data=d[:off] + v.to_bytes(4, 'big') + d[off + 4:]))
+    if tier == 'quick':         # all truncation points of one format (the others every 3rd), all off-by-one neighbours, a seeded fifth of the dictionary substitutions
         f0 = seeds[rng.below(len(seeds))]['name']
         cases = [c for c in full if c['kind'] == 'trunc' and (c['name'].startswith(f0) or rng.chance(1, 3))]
-        cases += [c for c in full if c['kind'] != 'trunc' and rng.chance(1, 4)]
+        cases += [c for c in full if c['kind'].startswith('nb')]
+        cases += [c for c in full if c['kind'] in ('w4', 'w8') and rng.chance(1, 5)]
     else:
         cases = full
     cases += bigcases
@@ -809,7 +819,7 @@ def run_check(tier, seed):
         V.cov['distinct_nontrivial'] = len(distinct)
         V.cov['traces_validated_against_impl'] = nmal - len(tie)
         V.cov['rule'] = ('S4a: seed files of CDF-1/2/5 written by the real library; every truncation point, every 4-byte-aligned header word replaced by each of %d 32-bit and %d 64-bit '
-                         'extreme values (quick tier: all truncations of one format, a third of the others, a seeded quarter of the substitutions; thorough: all), random 2-4-field '
+                         'extreme values, by its own value +-1 and by ndims-1/ndims/ndims+1 (quick tier: all truncations of one format, a third of the others, all off-by-one neighbours, a seeded fifth of the dictionary substitutions; thorough: all), random 2-4-field '
                          'corruptions and 1-3 bit flips; each opened by the sanitizer build in a forked child (open, inq, every dim/att/var inquiry, inq_varoffset, a read of every variable, '
                          'close) and compared with the model verdict incl. bytes fetched. non-trivial = the answer is not a plain OK; distinct = distinct sha1(file). '
                          'S4b: API scripts on the sanitizer build; S4c: one process per known defect' % (len(DICT4), len(DICT8)))
